@@ -42,13 +42,31 @@ var configJSON []byte
 type summaryCfg struct {
 	Delta []string `json:"delta"` // "+W f.lock", "-W bq.lock", "+R x.lock"
 	Dirty []string `json:"dirty"` // LockPile parameters the function may add to
+	Pre   []string `json:"pre"`   // "W bq.lock": mutexes the caller holds when it calls (every "-" item of delta is added)
+	Plow  []string `json:"plow"`  // "W bq.lock": mutexes that may be released (net) when the function panics
 	Why   string   `json:"why"`
+}
+
+type sameClassCfg struct {
+	AcquiredIn string `json:"acquired_in"` // function that contains the Lock call
+	Via        string `json:"via"`         // optional: a function the call chain from the holder to acquired_in goes through
+	Class      string `json:"class"`       // lock class acquired ...
+	HeldClass  string `json:"held_class"`  // ... while a lock of this class is held (default: the same class)
+	Why        string `json:"why"`
+}
+
+type orderCfg struct {
+	Aliases   map[string]string            `json:"aliases"`    // lock class -> class it is the same mutex as
+	AliasWhy  map[string]string            `json:"alias_why"`  // justification per alias
+	SameClass []sameClassCfg               `json:"justified"`  // nested acquisitions kept out of the class graph: same-class nesting outside LockPile (parent before child ...), or a nesting between instances the class abstraction cannot tell apart; each with the argument why no cycle goes through it
+	NotCalled map[string]map[string]string `json:"not_called"` // caller -> "Type.method" candidate -> why it is not a target of a call by name
 }
 
 type config struct {
 	Packages  []string              `json:"packages"`
 	Summaries map[string]summaryCfg `json:"summaries"`
 	Exempt    map[string]string     `json:"exempt"`
+	Order     orderCfg              `json:"order"`
 }
 
 // ---------------------------------------------------------------------------
@@ -56,16 +74,24 @@ type config struct {
 
 type node struct {
 	kind string // skip acq rel pua defer call return panic break continue alt loop seq scope setflag ifflag
-	mode string // W R P
-	pile string
-	lock string
-	fn   string
-	sigP [][2]string
-	sigL [][2]string
-	inf  bool
-	flag string
-	val  bool
-	kids []*node
+	// only for the lock-order analysis (dropped from the emitted skeleton):
+	// ucall (call by method name that cannot be resolved), xcall (function of another analysed package),
+	// lcall (call of a local function value), mkclosure (function literal used as a value)
+	class  string // acq/rel: lock class (pkg.Type.field)
+	pos    string // file:line
+	isGo   bool   // call: go statement (the callee does not run under the caller's locks)
+	nargs  int    // ucall: number of arguments
+	mode   string // W R P
+	pile   string
+	lock   string
+	fn     string
+	sigP   [][2]string
+	sigL   [][2]string
+	actual map[string]string // call: callee receiver/parameter name -> the argument as a lock-expression prefix in the caller
+	inf    bool
+	flag   string
+	val    bool
+	kids   []*node
 }
 
 func nSkip() *node { return &node{kind: "skip"} }
@@ -85,7 +111,7 @@ func pairs(ps [][2]string) string {
 
 func (n *node) coq() string {
 	switch n.kind {
-	case "skip":
+	case "skip", "ucall", "xcall", "lcall", "mkclosure":
 		return "Skip"
 	case "acq", "rel":
 		name := map[string]string{"acqW": "Lock", "acqR": "RLock", "acqP": "PileLock", "relW": "Unlock", "relR": "RUnlock", "relP": "PileUnlock"}[n.kind+n.mode]
@@ -165,8 +191,15 @@ func simplify(n *node, keep func(fn string) bool, liveFlags map[string]bool) *no
 		n.kids[i] = simplify(k, keep, liveFlags)
 	}
 	switch n.kind {
+	case "ucall", "xcall", "lcall", "mkclosure":
+		return nSkip()
 	case "call":
 		if !keep(n.fn) {
+			if mayPanic[n.fn] && !n.isGo {
+				// a function that touches no lock but may panic: all the
+				// caller needs to know
+				return &node{kind: "alt", kids: []*node{{kind: "panic"}, nSkip()}}
+			}
 			return nSkip()
 		}
 	case "setflag":
@@ -260,6 +293,8 @@ type funcInfo struct {
 	nclos    int
 	env      map[string]string
 	flagVars map[string]bool
+	aliases  map[string]string   // local x := recv.a.b (assigned once) -> "recv.a.b"
+	defs     map[string]ast.Expr // locals defined exactly once: their defining expression
 }
 
 type pkgInfo struct {
@@ -269,9 +304,42 @@ type pkgInfo struct {
 	funcs   map[string]*funcInfo         // "T.m" or "f"
 	byName  map[string][]*funcInfo       // method name -> methods
 	imports map[string]bool              // local names of imported packages
+	impPath map[string]string            // local name -> import path
+	types   map[string]bool              // named types declared here
+	ifaces  map[string]*ifaceInfo        // interface types declared here
+	embeds  map[string][]string          // struct type -> embedded types
+	tparams map[string][]string          // generic type -> its type parameters
+	generic map[string][]string          // type X = G[A, B] -> [G, A, B]
+}
+
+type ifaceInfo struct {
+	methods []string
+	embeds  []string
+	results map[string][]string // method -> result types
+}
+
+// ifaceResults: result types of method m of interface ty (declared in p),
+// looking through embedded interfaces of the same package.
+func (p *pkgInfo) ifaceResults(ty, m string, depth int) ([]string, bool) {
+	it, ok := p.ifaces[ty]
+	if !ok || depth > 8 {
+		return nil, false
+	}
+	if rs, ok := it.results[m]; ok {
+		return rs, true
+	}
+	for _, e := range it.embeds {
+		if rs, ok := p.ifaceResults(e, m, depth+1); ok {
+			return rs, true
+		}
+	}
+	return nil, false
 }
 
 var (
+	plowEff  = map[string][]sitem{} // panic bound per function: declared, or propagated from callees
+	mayPanic = map[string]bool{}
+	repoRoot string
 	fset     = token.NewFileSet()
 	cfg      config
 	allFuncs = map[string]*funcInfo{}
@@ -292,9 +360,33 @@ func typeBase(e ast.Expr) string {
 			return x.Name + "." + t.Sel.Name
 		}
 	case *ast.IndexExpr:
+		if b := typeBase(t.X); b == "atomic.Pointer" {
+			if v := typeBase(t.Index); v != "" {
+				return "atomicptr[]" + v
+			}
+		}
 		return typeBase(t.X)
 	case *ast.IndexListExpr:
 		return typeBase(t.X)
+	case *ast.MapType:
+		if v := typeBase(t.Value); v != "" {
+			return "map[]" + v
+		}
+	case *ast.ArrayType:
+		if v := typeBase(t.Elt); v != "" {
+			return "[]" + v
+		}
+	}
+	return ""
+}
+
+// elemType: the element type of a map or slice type as typeBase renders it.
+func elemType(ty string) string {
+	if strings.HasPrefix(ty, "map[]") {
+		return ty[5:]
+	}
+	if strings.HasPrefix(ty, "[]") {
+		return ty[2:]
 	}
 	return ""
 }
@@ -351,7 +443,7 @@ func loadPackage(repo, rel string) *pkgInfo {
 	if err != nil {
 		die("cannot read package %s: %v", rel, err)
 	}
-	p := &pkgInfo{dir: rel, structs: map[string]map[string]string{}, funcs: map[string]*funcInfo{}, byName: map[string][]*funcInfo{}, imports: map[string]bool{}}
+	p := &pkgInfo{dir: rel, structs: map[string]map[string]string{}, funcs: map[string]*funcInfo{}, byName: map[string][]*funcInfo{}, imports: map[string]bool{}, impPath: map[string]string{}, types: map[string]bool{}, ifaces: map[string]*ifaceInfo{}, embeds: map[string][]string{}, tparams: map[string][]string{}, generic: map[string][]string{}}
 	var files []*ast.File
 	var names []string
 	for _, e := range entries {
@@ -379,6 +471,7 @@ func loadPackage(repo, rel string) *pkgInfo {
 				name = im.Name.Name
 			}
 			p.imports[name] = true
+			p.impPath[name] = path
 		}
 		for _, d := range f.Decls {
 			gd, ok := d.(*ast.GenDecl)
@@ -387,6 +480,41 @@ func loadPackage(repo, rel string) *pkgInfo {
 			}
 			for _, s := range gd.Specs {
 				ts := s.(*ast.TypeSpec)
+				p.types[ts.Name.Name] = true
+				if ts.TypeParams != nil {
+					for _, fl := range ts.TypeParams.List {
+						for _, nm := range fl.Names {
+							p.tparams[ts.Name.Name] = append(p.tparams[ts.Name.Name], nm.Name)
+						}
+					}
+				}
+				if il, ok := ts.Type.(*ast.IndexListExpr); ok {
+					g := []string{typeBase(il.X)}
+					for _, a := range il.Indices {
+						g = append(g, typeBase(a))
+					}
+					p.generic[ts.Name.Name] = g
+				} else if ie, ok := ts.Type.(*ast.IndexExpr); ok {
+					p.generic[ts.Name.Name] = []string{typeBase(ie.X), typeBase(ie.Index)}
+				}
+				if it, ok := ts.Type.(*ast.InterfaceType); ok {
+					info := &ifaceInfo{results: map[string][]string{}}
+					for _, m := range it.Methods.List {
+						if len(m.Names) == 0 {
+							if tb := typeBase(m.Type); tb != "" {
+								info.embeds = append(info.embeds, tb)
+							}
+						}
+						for _, nm := range m.Names {
+							info.methods = append(info.methods, nm.Name)
+							if ft, ok := m.Type.(*ast.FuncType); ok {
+								info.results[nm.Name] = resultsOf(ft)
+							}
+						}
+					}
+					p.ifaces[ts.Name.Name] = info
+					continue
+				}
 				st, ok := ts.Type.(*ast.StructType)
 				if !ok {
 					continue
@@ -400,6 +528,7 @@ func loadPackage(repo, rel string) *pkgInfo {
 							nm = nm[i+1:]
 						}
 						fields[nm] = tb
+						p.embeds[ts.Name.Name] = append(p.embeds[ts.Name.Name], tb)
 					}
 					for _, nm := range fl.Names {
 						fields[nm.Name] = tb
@@ -562,10 +691,17 @@ func (t *tr) typeOf(e ast.Expr) string {
 		if rs := t.resultTypes(x); len(rs) == 1 {
 			return rs[0]
 		}
+		if sel, ok := x.Fun.(*ast.SelectorExpr); ok && sel.Sel.Name == "Load" && len(x.Args) == 0 {
+			if ty := t.typeOf(sel.X); strings.HasPrefix(ty, "atomicptr[]") {
+				return ty[len("atomicptr[]"):]
+			}
+		}
 	case *ast.TypeAssertExpr:
 		if x.Type != nil {
 			return typeBase(x.Type)
 		}
+	case *ast.IndexExpr:
+		return elemType(t.typeOf(x.X))
 	}
 	return ""
 }
@@ -586,6 +722,28 @@ func (t *tr) resultTypes(c *ast.CallExpr) []string {
 			if fi, ok := p.funcs[ty+"."+f.Sel.Name]; ok {
 				return fi.results
 			}
+			if rs, ok := p.ifaceResults(ty, f.Sel.Name, 0); ok {
+				return rs
+			}
+			// an instantiated generic type: type X = G[A, B]
+			if g, ok := p.generic[ty]; ok {
+				if fi, ok := p.funcs[g[0]+"."+f.Sel.Name]; ok {
+					tp := p.tparams[g[0]]
+					out := make([]string, len(fi.results))
+					for i, r := range fi.results {
+						out[i] = r
+						for j, name := range tp {
+							if r == name && j+1 < len(g) {
+								out[i] = g[j+1]
+							}
+						}
+						if r == g[0] {
+							out[i] = ty
+						}
+					}
+					return out
+				}
+			}
 		}
 	}
 	return nil
@@ -597,6 +755,8 @@ func (t *tr) buildEnv(ft *ast.FuncType) {
 	fi := t.fi
 	fi.env = map[string]string{}
 	fi.flagVars = map[string]bool{}
+	fi.aliases = map[string]string{}
+	t.findAliases()
 	if fi.recv != nil && fi.recv.name != "" {
 		fi.env[fi.recv.name] = fi.recv.typ
 	}
@@ -663,6 +823,12 @@ func (t *tr) buildEnv(ft *ast.FuncType) {
 								ty = rs[i]
 							}
 						}
+						if ta, ok := s.Rhs[0].(*ast.TypeAssertExpr); ok && len(s.Rhs) == 1 && i == 0 && ta.Type != nil {
+							ty = typeBase(ta.Type)
+						}
+						if ie, ok := s.Rhs[0].(*ast.IndexExpr); ok && len(s.Rhs) == 1 && i == 0 {
+							ty = t.typeOf(ie) // v, ok := m[k]
+						}
 						set(id.Name, ty)
 					}
 					flagBad[id.Name] = true
@@ -686,9 +852,13 @@ func (t *tr) buildEnv(ft *ast.FuncType) {
 				}
 			}
 		case *ast.RangeStmt:
-			for _, e := range []ast.Expr{s.Key, s.Value} {
+			for k, e := range []ast.Expr{s.Key, s.Value} {
 				if id, ok := e.(*ast.Ident); ok {
-					set(id.Name, "")
+					ty := ""
+					if k == 1 && s.Tok == token.DEFINE {
+						ty = elemType(t.typeOf(s.X))
+					}
+					set(id.Name, ty)
 					flagBad[id.Name] = true
 				}
 			}
@@ -721,10 +891,155 @@ func (t *tr) buildEnv(ft *ast.FuncType) {
 	_ = depth
 }
 
+func (t *tr) at(pos token.Pos) string {
+	p := fset.Position(pos)
+	return fmt.Sprintf("%s:%d", strings.TrimPrefix(p.Filename, repoRoot+"/"), p.Line)
+}
+
+// lockClass names the class of a mutex: the struct type and field it lives
+// in ("virtual.inMemoryPrepopulatedDirectory.lock").  "" if it cannot be
+// told (a mutex held in a plain variable).
+func (t *tr) lockClass(e ast.Expr) string {
+	switch x := e.(type) {
+	case *ast.ParenExpr:
+		return t.lockClass(x.X)
+	case *ast.StarExpr:
+		return t.lockClass(x.X)
+	case *ast.UnaryExpr:
+		if x.Op == token.AND {
+			return t.lockClass(x.X)
+		}
+	case *ast.IndexExpr:
+		return t.lockClass(x.X)
+	case *ast.SelectorExpr:
+		if ty := t.typeOf(x.X); ty != "" {
+			if strings.Contains(ty, ".") {
+				return ty + "." + x.Sel.Name
+			}
+			return t.fi.pkg.name + "." + ty + "." + x.Sel.Name
+		}
+	case *ast.Ident:
+		// l := &x.lock, defined once
+		for f := t.fi; f != nil; f = f.parent {
+			if _, ok := f.env[x.Name]; ok {
+				if d, ok := f.defs[x.Name]; ok {
+					return (&tr{fi: f}).lockClass(d)
+				}
+				break
+			}
+		}
+	}
+	return ""
+}
+
+// findAliases records the locals that are defined once, as a field path of
+// the receiver or a parameter (p := s.program): lock expressions through them
+// are rendered through the path, so that a summary can name them.
+func (t *tr) findAliases() {
+	fi := t.fi
+	count := map[string]int{}
+	def := map[string]ast.Expr{}
+	note := func(e ast.Expr) {
+		if id, ok := e.(*ast.Ident); ok {
+			count[id.Name]++
+		}
+	}
+	ast.Inspect(fi.body, func(n ast.Node) bool {
+		switch s := n.(type) {
+		case *ast.AssignStmt:
+			for i, l := range s.Lhs {
+				note(l)
+				if id, ok := l.(*ast.Ident); ok && s.Tok == token.DEFINE && len(s.Lhs) == len(s.Rhs) {
+					def[id.Name] = s.Rhs[i]
+				}
+			}
+		case *ast.ValueSpec:
+			for _, nm := range s.Names {
+				count[nm.Name] += 2 // var declarations: not an alias
+			}
+		case *ast.RangeStmt:
+			note(s.Key)
+			note(s.Value)
+		case *ast.IncDecStmt:
+			note(s.X)
+		case *ast.UnaryExpr:
+			if s.Op == token.AND {
+				note(s.X)
+			}
+		}
+		return true
+	})
+	isParam := func(name string) bool {
+		if fi.recv != nil && fi.recv.name == name {
+			return true
+		}
+		for _, p := range fi.params {
+			if p.name == name {
+				return true
+			}
+		}
+		return false
+	}
+	var path func(e ast.Expr, depth int) (string, bool)
+	path = func(e ast.Expr, depth int) (string, bool) {
+		switch x := e.(type) {
+		case *ast.Ident:
+			if isParam(x.Name) && count[x.Name] == 0 {
+				return x.Name, true
+			}
+			if d, ok := def[x.Name]; ok && count[x.Name] == 1 && depth < 6 {
+				return path(d, depth+1)
+			}
+		case *ast.ParenExpr:
+			return path(x.X, depth)
+		case *ast.StarExpr:
+			return path(x.X, depth)
+		case *ast.SelectorExpr:
+			if s, ok := path(x.X, depth); ok {
+				return s + "." + x.Sel.Name, true
+			}
+		}
+		return "", false
+	}
+	fi.defs = map[string]ast.Expr{}
+	for name, d := range def {
+		if count[name] == 1 && !isParam(name) {
+			if _, isId := d.(*ast.Ident); !isId {
+				fi.defs[name] = d
+			}
+		}
+	}
+	for name, d := range def {
+		if count[name] != 1 || isParam(name) {
+			continue
+		}
+		if _, isSel := d.(*ast.SelectorExpr); !isSel {
+			continue
+		}
+		if s, ok := path(d, 0); ok {
+			fi.aliases[name] = s
+		}
+	}
+}
+
+func (fi *funcInfo) aliasOf(name string) (string, bool) {
+	// the innermost function that knows the name decides
+	for f := fi; f != nil; f = f.parent {
+		if _, ok := f.env[name]; ok {
+			a, ok := f.aliases[name]
+			return a, ok
+		}
+	}
+	return "", false
+}
+
 // lockName renders the expression a mutex method is called on.
 func (t *tr) lockName(e ast.Expr) (string, bool) {
 	switch x := e.(type) {
 	case *ast.Ident:
+		if a, ok := t.fi.aliasOf(x.Name); ok {
+			return a, true
+		}
 		return x.Name, true
 	case *ast.ParenExpr:
 		return t.lockName(x.X)
@@ -845,7 +1160,7 @@ func (t *tr) resolve(call *ast.CallExpr) (*funcInfo, ast.Expr) {
 // callNode builds the Call for a resolved callee, with the renaming of the
 // names its summary mentions.
 func (t *tr) callNode(call *ast.CallExpr, callee *funcInfo, recvExpr ast.Expr) *node {
-	n := &node{kind: "call", fn: callee.key}
+	n := &node{kind: "call", fn: callee.key, pos: t.at(call.Pos())}
 	t.fi.calls[callee.key] = true
 	actual := map[string]ast.Expr{}
 	if callee.recv != nil && callee.recv.name != "" && recvExpr != nil {
@@ -854,6 +1169,12 @@ func (t *tr) callNode(call *ast.CallExpr, callee *funcInfo, recvExpr ast.Expr) *
 	for i, p := range callee.params {
 		if p.name != "" && i < len(call.Args) && !strings.HasPrefix(p.typ, "...") {
 			actual[p.name] = call.Args[i]
+		}
+	}
+	n.actual = map[string]string{}
+	for root, a := range actual {
+		if an, ok := t.lockName(a); ok {
+			n.actual[root] = an
 		}
 	}
 	// LockPile arguments
@@ -867,9 +1188,13 @@ func (t *tr) callNode(call *ast.CallExpr, callee *funcInfo, recvExpr ast.Expr) *
 		}
 	}
 	if sm, ok := cfg.Summaries[callee.key]; ok {
-		for _, d := range sm.Delta {
-			f := strings.Fields(d)
-			lock := f[1]
+		seen := map[string]bool{}
+		for _, it := range sm.items() {
+			lock := it.lock
+			if seen[lock] {
+				continue
+			}
+			seen[lock] = true
 			root := rootOf(lock)
 			a, ok := actual[root]
 			if !ok {
@@ -928,7 +1253,8 @@ func (t *tr) expr(e ast.Expr, out *node) {
 			}
 		}
 	case *ast.FuncLit:
-		t.newClosure(x) // checked on its own; creating it does nothing
+		cl := t.newClosure(x) // checked on its own; creating it does nothing
+		add(&node{kind: "mkclosure", fn: cl.key, pos: t.at(x.Pos())})
 	case *ast.ParenExpr:
 		t.expr(x.X, out)
 	case *ast.SelectorExpr:
@@ -1004,7 +1330,7 @@ func (t *tr) call(c *ast.CallExpr, out *node) *node {
 				n := nSeq()
 				for _, a := range c.Args {
 					if l, ok := t.lockName(a); ok {
-						n.kids = append(n.kids, &node{kind: "acq", mode: "P", pile: pile, lock: l})
+						n.kids = append(n.kids, &node{kind: "acq", mode: "P", pile: pile, lock: l, class: t.lockClass(a), pos: t.at(c.Pos())})
 					} else {
 						t.problem(c.Pos(), "LockPile.Lock argument is not a plain lock expression")
 					}
@@ -1016,7 +1342,7 @@ func (t *tr) call(c *ast.CallExpr, out *node) *node {
 			case "Unlock":
 				if len(c.Args) == 1 {
 					if l, ok := t.lockName(c.Args[0]); ok {
-						return &node{kind: "rel", mode: "P", pile: pile, lock: l}
+						return &node{kind: "rel", mode: "P", pile: pile, lock: l, class: t.lockClass(c.Args[0]), pos: t.at(c.Pos())}
 					}
 				}
 				t.problem(c.Pos(), "LockPile.Unlock argument is not a plain lock expression")
@@ -1038,13 +1364,13 @@ func (t *tr) call(c *ast.CallExpr, out *node) *node {
 			t.fi.direct = true
 			switch name {
 			case "Lock":
-				return &node{kind: "acq", mode: "W", lock: l}
+				return &node{kind: "acq", mode: "W", lock: l, class: t.lockClass(sel.X), pos: t.at(c.Pos())}
 			case "Unlock":
-				return &node{kind: "rel", mode: "W", lock: l}
+				return &node{kind: "rel", mode: "W", lock: l, class: t.lockClass(sel.X), pos: t.at(c.Pos())}
 			case "RLock":
-				return &node{kind: "acq", mode: "R", lock: l}
+				return &node{kind: "acq", mode: "R", lock: l, class: t.lockClass(sel.X), pos: t.at(c.Pos())}
 			case "RUnlock":
-				return &node{kind: "rel", mode: "R", lock: l}
+				return &node{kind: "rel", mode: "R", lock: l, class: t.lockClass(sel.X), pos: t.at(c.Pos())}
 			}
 			t.problem(c.Pos(), "%s() is not understood", name)
 			return nil
@@ -1065,6 +1391,20 @@ func (t *tr) call(c *ast.CallExpr, out *node) *node {
 		if _, ok := t.isPile(a); ok {
 			t.problem(c.Pos(), "LockPile passed to a call that cannot be resolved")
 		}
+	}
+	// for the lock-order analysis: where may this call go?
+	switch f := c.Fun.(type) {
+	case *ast.Ident:
+		if t.fi.isLocal(f.Name) {
+			return &node{kind: "lcall", pos: t.at(c.Pos())}
+		}
+	case *ast.SelectorExpr:
+		if id, ok := f.X.(*ast.Ident); ok && t.fi.pkg.imports[id.Name] && !t.fi.isLocal(id.Name) {
+			return &node{kind: "xcall", fn: t.fi.pkg.impPath[id.Name] + "#" + f.Sel.Name, pos: t.at(c.Pos())}
+		}
+		return &node{kind: "ucall", fn: f.Sel.Name, nargs: len(c.Args), pos: t.at(c.Pos()), class: t.typeOf(f.X)}
+	default:
+		return &node{kind: "lcall", pos: t.at(c.Pos())}
 	}
 	return nil
 }
@@ -1157,14 +1497,16 @@ func (t *tr) stmt(s ast.Stmt) *node {
 		if lit, ok := x.Call.Fun.(*ast.FuncLit); ok {
 			cl := t.newClosure(lit)
 			t.fi.calls[cl.key] = true
-			n.kids = append(n.kids, &node{kind: "call", fn: cl.key})
+			n.kids = append(n.kids, &node{kind: "call", fn: cl.key, isGo: true, pos: t.at(x.Pos())})
 			return n
 		}
 		if sel, ok := x.Call.Fun.(*ast.SelectorExpr); ok {
 			t.expr(sel.X, n)
 		}
 		if callee, recv := t.resolve(x.Call); callee != nil {
-			n.kids = append(n.kids, t.callNode(x.Call, callee, recv))
+			cn := t.callNode(x.Call, callee, recv)
+			cn.isGo = true
+			n.kids = append(n.kids, cn)
 		}
 		return n
 	case *ast.DeferStmt:
@@ -1377,6 +1719,52 @@ func checkRoots(fi *funcInfo) {
 
 // ---------------------------------------------------------------------------
 
+type sitem struct {
+	sign, mode, lock string
+}
+
+// items lists everything a summary mentions: delta, then pre, then plow.
+func (sm summaryCfg) items() []sitem {
+	var out []sitem
+	for _, d := range sm.Delta {
+		sign, mode, lock, _ := parseItem(d)
+		out = append(out, sitem{sign, mode, lock})
+	}
+	for _, it := range sm.pre() {
+		out = append(out, it)
+	}
+	for _, d := range sm.Plow {
+		mode, lock, _ := parseHeld(d)
+		out = append(out, sitem{"", mode, lock})
+	}
+	return out
+}
+
+// pre is the entry assumption: what is declared, and everything the
+// function releases on net (it cannot release what is not held).
+func (sm summaryCfg) pre() []sitem {
+	var out []sitem
+	for _, d := range sm.Pre {
+		mode, lock, _ := parseHeld(d)
+		out = append(out, sitem{"", mode, lock})
+	}
+	for _, d := range sm.Delta {
+		sign, mode, lock, _ := parseItem(d)
+		if sign == "-" {
+			out = append(out, sitem{"", mode, lock})
+		}
+	}
+	return out
+}
+
+func parseHeld(s string) (mode, lock string, err error) {
+	f := strings.Fields(s)
+	if len(f) != 2 || (f[0] != "W" && f[0] != "R") {
+		return "", "", fmt.Errorf("bad summary item %q (want \"W x.lock\")", s)
+	}
+	return f[0], f[1], nil
+}
+
 func parseItem(s string) (sign, mode, lock string, err error) {
 	f := strings.Fields(s)
 	if len(f) != 2 || len(f[0]) != 2 || (f[0][0] != '+' && f[0][0] != '-') || (f[0][1] != 'W' && f[0][1] != 'R') {
@@ -1388,6 +1776,16 @@ func parseItem(s string) (sign, mode, lock string, err error) {
 func summaryCoq(fi *funcInfo) string {
 	sm, ok := cfg.Summaries[fi.key]
 	if !ok {
+		if pl := plowEff[fi.key]; len(pl) > 0 {
+			var out []string
+			for _, it := range pl {
+				out = append(out, fmt.Sprintf("((M%s, %s), 1%%Z)", it.mode, q(it.lock)))
+			}
+			return "(mkSum [] [] [] [" + strings.Join(out, "; ") + "] true)"
+		}
+		if mayPanic[fi.key] {
+			return "(mkSum [] [] [] [] true)"
+		}
 		return "neutral"
 	}
 	var items []string
@@ -1403,13 +1801,29 @@ func summaryCoq(fi *funcInfo) string {
 	for _, d := range sm.Dirty {
 		dirty = append(dirty, q(d))
 	}
-	return "(mkSum [" + strings.Join(items, "; ") + "] [" + strings.Join(dirty, "; ") + "])"
+	held := func(its []sitem) string {
+		var out []string
+		for _, it := range its {
+			out = append(out, fmt.Sprintf("((M%s, %s), 1%%Z)", it.mode, q(it.lock)))
+		}
+		return "[" + strings.Join(out, "; ") + "]"
+	}
+	plow := plowEff[fi.key]
+	return "(mkSum [" + strings.Join(items, "; ") + "] [" + strings.Join(dirty, "; ") + "] " + held(sm.pre()) + " " + held(plow) + " " + coqBool(mayPanic[fi.key]) + ")"
+}
+
+func coqBool(b bool) string {
+	if b {
+		return "true"
+	}
+	return "false"
 }
 
 func main() {
 	repo := flag.String("repo", "", "repository root (default $VERIF_REPO or /repo)")
 	out := flag.String("out", "", "output .v file (default stdout)")
 	statsOut := flag.String("stats", "", "write statistics as JSON to this file")
+	orderOut := flag.String("order", "", "write the lock-order graph with acquisition sites as JSON to this file")
 	flag.Parse()
 	if *repo == "" {
 		*repo = os.Getenv("VERIF_REPO")
@@ -1417,6 +1831,7 @@ func main() {
 	if *repo == "" {
 		*repo = "/repo"
 	}
+	repoRoot = strings.TrimSuffix(*repo, "/")
 	if err := json.Unmarshal(configJSON, &cfg); err != nil {
 		die("summaries.json: %v", err)
 	}
@@ -1435,6 +1850,11 @@ func main() {
 		}
 		for _, d := range sm.Delta {
 			if _, _, _, err := parseItem(d); err != nil {
+				die("summaries.json: %s: %v", key, err)
+			}
+		}
+		for _, d := range append(append([]string(nil), sm.Pre...), sm.Plow...) {
+			if _, _, err := parseHeld(d); err != nil {
 				die("summaries.json: %s: %v", key, err)
 			}
 		}
@@ -1463,8 +1883,8 @@ func main() {
 	// summaries: roots must be receiver/parameters (closures: any captured name)
 	for key, sm := range cfg.Summaries {
 		fi := allFuncs[key]
-		for _, d := range sm.Delta {
-			_, _, lock, _ := parseItem(d)
+		for _, it := range sm.items() {
+			lock := it.lock
 			root := rootOf(lock)
 			ok := fi.closure || (fi.recv != nil && fi.recv.name == root)
 			for _, p := range fi.params {
@@ -1513,6 +1933,87 @@ func main() {
 			}
 		}
 	}
+	// which functions may end in a panic (explicit panic statements, their own
+	// or those of the functions of the package they call)
+	for _, fi := range order {
+		if fi.tree.has("panic") {
+			mayPanic[fi.key] = true
+		}
+	}
+	for changed := true; changed; {
+		changed = false
+		for _, fi := range order {
+			if mayPanic[fi.key] {
+				continue
+			}
+			for c := range fi.calls {
+				if mayPanic[c] {
+					mayPanic[fi.key] = true
+					changed = true
+					break
+				}
+			}
+		}
+	}
+	// panic bounds: a function that calls one whose panic may leave a mutex
+	// released inherits that bound, in its own names (the Coq checker verifies
+	// every bound, so this propagation only has to be generous enough)
+	for key, sm := range cfg.Summaries {
+		for _, d := range sm.Plow {
+			mode, lock, _ := parseHeld(d)
+			plowEff[key] = append(plowEff[key], sitem{"", mode, lock})
+		}
+	}
+	for changed := true; changed; {
+		changed = false
+		for _, fi := range order {
+			if _, ex := cfg.Exempt[fi.key]; ex {
+				continue
+			}
+			fi.tree.walk(func(n *node) {
+				if n.kind != "call" || n.isGo {
+					return
+				}
+				for _, it := range plowEff[n.fn] {
+					name := it.lock
+					if n.actual != nil {
+						root := rootOf(it.lock)
+						a, ok := n.actual[root]
+						if !ok {
+							fi.problems = append(fi.problems, fmt.Sprintf("%s: when %s panics it may have released %s, which cannot be named here", n.pos, n.fn, it.lock))
+							continue
+						}
+						name = a + it.lock[len(root):]
+					}
+					have := false
+					for _, p := range n.sigL {
+						if p[0] == it.lock {
+							have = true
+						}
+					}
+					if !have {
+						n.sigL = append(n.sigL, [2]string{it.lock, name})
+					}
+					dup := false
+					for _, old := range plowEff[fi.key] {
+						if old.mode == it.mode && old.lock == name {
+							dup = true
+						}
+					}
+					if !dup {
+						if len(plowEff[fi.key]) > 8 {
+							return
+						}
+						plowEff[fi.key] = append(plowEff[fi.key], sitem{"", it.mode, name})
+						changed = true
+					}
+				}
+			})
+		}
+	}
+	// lock-order graph (needs the trees before they are simplified)
+	orderEdges := lockOrder(pkgs)
+
 	// a closure's problems count for itself; an inline closure's for its parent (same tr)
 	var emitted []*funcInfo
 	withLocks := 0
@@ -1577,6 +2078,20 @@ func main() {
 			eps = append(eps, q(fi.key))
 		}
 	}
+	b.WriteString("(* lock-class order: (class of a mutex that may be held, class of a mutex acquired blocking meanwhile) *)\nDefinition lock_edges : list (string * string) := [\n")
+	for i, e := range orderEdges.Edges {
+		sep := ";"
+		if i == len(orderEdges.Edges)-1 {
+			sep = ""
+		}
+		st := orderEdges.Sites[e[0]+" -> "+e[1]][0]
+		fmt.Fprintf(&b, "  (* %s holds %s, %s acquires %s *)\n  (%s, %s)%s\n", st.InFunc, st.HeldLock, st.AcquiredAt, st.AcquiredLock, q(e[0]), q(e[1]), sep)
+	}
+	b.WriteString("].\n\n")
+	if *orderOut != "" {
+		data, _ := json.MarshalIndent(orderEdges, "", " ")
+		os.WriteFile(*orderOut, data, 0o644)
+	}
 	b.WriteString("(* functions that must leave every lock as they found it *)\nDefinition entry_points : list string := [\n  " + strings.Join(eps, ";\n  ") + "\n].\n")
 	if *out == "" {
 		fmt.Print(b.String())
@@ -1594,7 +2109,8 @@ func main() {
 		"packages": cfg.Packages, "functions_seen": len(order), "function_literals": closures,
 		"functions_with_lock_operations": withLocks, "functions_emitted": len(emitted),
 		"functions_with_declared_summary": len(cfg.Summaries), "functions_modelled_elsewhere": len(cfg.Exempt),
-		"entry_points": len(eps),
+		"entry_points": len(eps), "lock_classes": len(orderEdges.Classes), "lock_order_edges": len(orderEdges.Edges),
+		"justified_nestings": len(cfg.Order.SameClass), "functions_that_may_panic": len(mayPanic), "functions_with_panic_bound": len(plowEff),
 	}
 	data, _ := json.MarshalIndent(stats, "", " ")
 	if *statsOut != "" {
